@@ -44,6 +44,8 @@ func kitchenSpec() *aspec.ASpec {
 		{Template: lit("sec", "{id}"), Ops: []aspec.Op{op("GET", lit("sec", "{id}"), sec([]string{"A"}), "x-trace", "X-Other"), op("PATCH", lit("sec", "{id}"), sec(), "X-Trace")}},
 		{Template: lit("opt"), Ops: []aspec.Op{op("GET", lit("opt"), inherit), op("OPTIONS", lit("opt"), inherit)}},
 		{Template: lit("opt", "{x}"), Ops: []aspec.Op{op("GET", lit("opt", "{x}"), inherit)}},
+		// a catch-all single segment: it also matches the spec-file URL, which must still win
+		{Template: lit("{page}"), Ops: []aspec.Op{op("GET", lit("{page}"), inherit)}},
 	}
 	return a
 }
@@ -93,8 +95,8 @@ func checkC16(c *core.Check) {
 	var setPaths []string
 	for si := 0; si < nSets; si++ {
 		prefix := fmt.Sprintf("s%04d", si)
-		for _, m := range sets[si].Set {
-			t := mount([]string{prefix}, m.T)
+		for mi, m := range sets[si].Set {
+			t := mountNamed([]string{prefix}, m.T, varLetters[(si+mi*3)%len(varLetters)])
 			pi := aspec.PathItem{Template: t}
 			for _, meth := range m.Ms {
 				pi.Ops = append(pi.Ops, simpleOp(meth, t))
